@@ -39,6 +39,9 @@ def cases(tier, seed):
     out.append({"variant": "halflife_api", "name": "ema/ema_grouped(halflife=h): alpha = 1 - 2^(-1/h) for every real h > 0"})
     for unit in ("ns", "us", "ms", "s"):
         out.append({"variant": "timed_api", "unit": unit, "N": 3, "name": f"ema_grouped(halflife='1{unit}', times=datetime64[{unit}])/N=3"})
+    # a halflife that is not a whole number of ticks of the timestamps' own unit
+    out.append({"variant": "timed_api", "unit": "s", "halflife": "500ms", "dmul": 1, "N": 3, "name": "ema_grouped(halflife='500ms', times=datetime64[s])/N=3"})
+    out.append({"variant": "timed_api", "unit": "ms", "halflife": "1500us", "dmul": 3, "N": 3, "name": "ema_grouped(halflife='1500us', times=datetime64[ms], gaps in multiples of 3 ms)/N=3"})
     return out
 
 
